@@ -3267,6 +3267,9 @@ class Session(_SessionClassMethods, EventTarget):
         # load_on_ident.
         self._autoflush()
 
+        # the flush may have deleted the object
+        self._validate_persistent(state)
+
         if with_for_update == {}:
             raise sa_exc.ArgumentError(
                 "with_for_update should be the boolean value "
